@@ -30,7 +30,19 @@ type Case struct {
 	// HoldSnapshots > 0: the persister's snapshot writes are delayed until that many more
 	// batches were issued (unsafe mode only), so that several batches share one snapshot.
 	HoldSnapshots int `json:"hold_snapshots,omitempty"`
+	// Nudges delay a background step (named like a gate point: role:op.kind:phase) until N more
+	// batches were issued or 30 ms passed: cheap schedule steering without blocking anything
+	Nudges []Nudge `json:"nudges,omitempty"`
 }
+
+// Nudge is one schedule nudge.
+type Nudge struct {
+	Point string `json:"point"`
+	N     int    `json:"n"`
+}
+
+var nudgePoints = []string{"persister:persist.seg:begin", "persister:persist.snp:begin", "merger:persist.seg:begin", "merger:persist.seg:end",
+	"merger:load.seg:begin", "persister:remove.snp:begin", "persister:remove.seg:begin", "persister:load.seg:begin"}
 
 func gen(t *rapid.T) Case {
 	c := Case{Conf: vlib.IdxConf{Dir: "fs",
@@ -50,6 +62,15 @@ func gen(t *rapid.T) Case {
 	if c.Conf.Unsafe && rapid.Bool().Draw(t, "hold") {
 		c.HoldSnapshots = rapid.IntRange(1, 3).Draw(t, "holdN")
 	}
+	if c.Conf.Unsafe {
+		nn := rapid.IntRange(0, 2).Draw(t, "nNudges")
+		for i := 0; i < nn; i++ {
+			c.Nudges = append(c.Nudges, Nudge{Point: rapid.SampledFrom(nudgePoints).Draw(t, "nudgePoint"), N: rapid.IntRange(1, 3).Draw(t, "nudgeN")})
+		}
+	} else if rapid.Bool().Draw(t, "mergerNudge") {
+		// in safe mode only the merger and clean-up can be delayed (the client waits for the persister)
+		c.Nudges = append(c.Nudges, Nudge{Point: rapid.SampledFrom([]string{"merger:persist.seg:begin", "merger:persist.seg:end", "merger:load.seg:begin"}).Draw(t, "nudgePoint"), N: rapid.IntRange(1, 2).Draw(t, "nudgeN")})
+	}
 	return c
 }
 
@@ -64,7 +85,26 @@ func prop(c Case, st *stats) *vlib.Failure {
 	var rr *vlib.RecordedRun
 	issued := make(chan struct{}, 64)
 	tweak := func(ic index.Config, d *vlib.RecDir) index.Config {
-		if c.HoldSnapshots > 0 {
+		if len(c.Nudges) > 0 {
+			d.Gate = func(phase string, e *vlib.DirEvent) {
+				if e.Op != "persist" && e.Op != "load" && e.Op != "remove" {
+					return
+				}
+				pt := fmt.Sprintf("%s:%s%s:%s", vlib.Role(), e.Op, e.Kind, phase)
+				for _, n := range c.Nudges {
+					if n.Point != pt {
+						continue
+					}
+					for k := 0; k < n.N; k++ {
+						select {
+						case <-issued:
+						case <-timeAfterShort():
+							return
+						}
+					}
+				}
+			}
+		} else if c.HoldSnapshots > 0 {
 			d.Gate = func(phase string, e *vlib.DirEvent) {
 				if phase == "begin" && e.Op == "persist" && e.Kind == index.ItemKindSnapshot {
 					// wait (bounded) for more batches to be issued; purely a schedule nudge
@@ -168,6 +208,9 @@ func TestC02Durability(t *testing.T) {
 		}
 		if c.HoldSnapshots > 0 {
 			cls = append(cls, "held-snapshots")
+		}
+		for _, n := range c.Nudges {
+			cls = append(cls, "nudge:"+n.Point)
 		}
 		canon := vlib.Canon(c)
 		ev.Case(canon, false, append(cls, "runs")...)
